@@ -42,6 +42,7 @@ partial def showSchema : Schema → String
     "(object (" ++ " ".intercalate (ps.map (fun p => "(" ++ encodeStr p.1 ++ " " ++ showSchema p.2 ++ ")")) ++ ") ("
       ++ " ".intercalate (req.map encodeStr) ++ ") " ++ showAddl ad ++ ")"
   | .dict s => "(dict " ++ showSchema s ++ ")"
+  | .ndict s => "(ndict " ++ showSchema s ++ ")"  -- (constructor added to Dcg.Sem.Schema by C03; inference never produces it)
   | .ref n => "(ref " ++ encodeStr n ++ ")"
   | .anyOf as => "(anyOf" ++ String.join (as.map (" " ++ showSchema ·)) ++ ")"
   | .oneOf as => "(oneOf" ++ String.join (as.map (" " ++ showSchema ·)) ++ ")"
